@@ -1,5 +1,6 @@
 """C09 — pod membership is wired symmetrically between pods and their containers"""
-import core, gen, gen_units as G, canon, refs
+import os, re, shutil
+import core, gen, gen_units as G, canon, refs, e2e
 from core import hx, unhx
 import props.c08 as c08
 
@@ -133,3 +134,91 @@ def oracle(ctx):
             res.oracle_failures.append(dict(op=op, input=fs, impl_output=core.dec_line(a)[:900], oracle_expectation=f))
     res.samples.append(dict(kind='oracle-case', files=sets[0][1]))
     ctx.log(f'oracle: {res.oracle_evals} evaluations, {len(res.oracle_failures)} failures')
+
+
+# ---------------------------------------------------------------------------------------------------------------
+# whole runs with drop-ins: the wiring must be *consistent* between the two sides whatever the names are derived from
+
+DROPIN_LINES = {'pod': ['ServiceName=pd-svc', 'ServiceName=other pod', 'PodName=pn-drop', 'PodmanArgs=--x'],
+                'container': ['ServiceName=cd-svc', 'ContainerName=cn-drop', 'StartWithPod=no', 'StartWithPod=yes', 'StartWithPod=', 'PodmanArgs=--y']}
+
+
+def gen_tree(rnd):
+    fs = gen_set(rnd)
+    files = {}
+    for name, text in fs.items():
+        files['src/' + name] = text
+        ty = refs.ty_of(name)
+        for conf in rnd.sample(['10-a.conf', '20-b.conf'], rnd.randint(0, 2)):
+            if rnd.random() < 0.6:
+                files[f'src/{name}.d/{conf}'] = '[' + G.SEC[ty] + ']\n' + rnd.choice(DROPIN_LINES[ty]) + '\n'
+    return fs, files
+
+
+def wiring_failures(printed):
+    """printed: list of (service path, text) of one --dry-run; checks pod<->container consistency on what was generated"""
+    fails = []
+    units = {}
+    for path, text in printed:
+        m = re.search(r'^SourcePath=(.*)$', text, re.M)
+        if not m:
+            continue
+        src = os.path.basename(m.group(1).strip('"').replace('\\x20', ' '))
+        units[src] = dict(service=os.path.basename(path), text=text)
+    pods = {n: u for n, u in units.items() if n.endswith('.pod')}
+    members = {n: [] for n in pods}
+    for n, u in units.items():
+        if not n.endswith('.container'):
+            continue
+        xc = u['text'].split('[X-Container]', 1)[1].split('\n[', 1)[0] if '[X-Container]' in u['text'] else ''
+        vals = re.findall(r'^Pod=(.*)$', xc, re.M)
+        pod = vals[-1] if vals else ''
+        if pod == '' or pod not in pods:
+            continue
+        psvc = pods[pod]['service']
+        stem = psvc[:-len('.service')]
+        ex = [l for l in u['text'].split('\n') if l.startswith('ExecStart=')]
+        ex = ex[-1].replace('\\x20', ' ') if ex else ''
+        if f'--pod-id-file %t/{stem}.pod-id' not in ex and f'--pod-id-file "%t/{stem}.pod-id"' not in ex:
+            fails.append(f'{n}: created with another pod-id file than the one {pod} ({psvc}) writes: {ex[-200:]}')
+        unit = u['text'].split('[Unit]', 1)[1].split('\n[', 1)[0].replace('\\x20', ' ').replace('"', '')
+        for dep in ('BindsTo', 'After'):
+            if f'{dep}={psvc}' not in unit:
+                fails.append(f'{n}: [Unit] lacks {dep}={psvc} (the service generated for {pod})')
+        sw = re.findall(r'^StartWithPod=(.*)$', xc, re.M)
+        if not sw or sw[-1].strip() == '' or sw[-1] in ('yes', 'true', '1', 'on'):
+            members[pod].append(u['service'])
+    for pod, ms in members.items():
+        unit = pods[pod]['text'].split('[Unit]', 1)[1].split('\n[', 1)[0].replace('\\x20', ' ').replace('"', '')
+        wants = sorted(v for v in re.findall(r'^Wants=(.*)$', unit, re.M) if v != 'network-online.target')
+        before = sorted(re.findall(r'^Before=(.*)$', unit, re.M))
+        if wants != sorted(ms) or before != sorted(ms):
+            fails.append(f'{pod}: Wants {wants} / Before {before} differ from the services generated for its containers {sorted(ms)}')
+        if '%t/%N.pod-id' not in pods[pod]['text']:
+            fails.append(f'{pod}: does not write %t/%N.pod-id')
+    return fails
+
+
+_oracle_sets = oracle
+
+
+def oracle(ctx):
+    _oracle_sets(ctx)
+    res = ctx.res
+    rnd = ctx.rnd
+    trees_ = [gen_tree(rnd) for _ in range(400 if ctx.thorough else 120)]
+
+    def run(t):
+        fs, files = t
+        r = e2e.run_case(files, dry_run=True)
+        return r['printed_order'], r['exit'], r['stderr']
+    for (fs, files), (printed, rc, se) in zip(trees_, e2e.pmap(run, trees_)):
+        res.oracle_evals += 1
+        # two units with one service file name (KF-C10-1 situation) make "the service generated for p" ambiguous: skip
+        names = [os.path.basename(p) for p, _ in printed]
+        if len(names) != len(set(names)):
+            continue
+        for f in wiring_failures(printed):
+            res.oracle_failures.append(dict(op='e2e', input=files, impl_output=dict(exit=rc, services=names), oracle_expectation=f))
+    res.samples.append(dict(kind='e2e-tree', files=trees_[0][1]))
+    ctx.log(f'oracle (whole runs with drop-ins): {len(trees_)} trees, {len(res.oracle_failures)} failures in total')
